@@ -60,6 +60,57 @@ def atom_in_range(vm, x, lo, hi):
     return vm.truth(mk_bool(z3.And(zt(x) >= lo, zt(x) <= hi)))
 
 
+# ------------------------------------------------------------------------- big constant word tables
+class STableItem(Sym):
+    """table[index] for a big constant table of distinct whitespace-free strings and a symbolic index."""
+    __slots__ = ('table', 'index')
+
+    def __init__(self, table, index):
+        self.table, self.index = table, index
+
+
+class SJoined(Sym):
+    """sep.join(items) where some items are table items."""
+    __slots__ = ('sep', 'items')
+
+    def __init__(self, sep, items):
+        self.sep, self.items = sep, items
+
+
+_checked_tables = {}
+
+
+def table_item(vm, table, k):
+    ok = _checked_tables.get(id(table))
+    if ok is None:
+        ok = len(set(table)) == len(table) and all(x and not any(c.isspace() for c in x) for x in table)
+        _checked_tables[id(table)] = ok
+    if not ok:
+        raise Unsupported('symbolic index into a table with duplicate / empty / spaced entries')
+    n = len(table)
+    if vm.truth(mk_bool(z3.Or(k.e >= n, k.e < -n))):
+        raise IndexError('list index out of range')
+    idx = k.e
+    if vm.truth(mk_bool(idx < 0)):
+        idx = z3.simplify(idx + n)
+    return STableItem(table, idx)
+
+
+def sm_zfill(vm, o, args, kw):
+    w = args[0]
+    if isinstance(w, SInt):
+        lo, hi = vm.path_bounds(w.e)
+        if lo is None or hi is None or hi - lo > 256:
+            raise Unsupported('zfill with an unbounded symbolic width')
+        w = vm.choose_int(w, lo, hi)
+    a = list(str_atoms(o))
+    if len(a) >= w:
+        return mk_str(a)
+    if a and isinstance(a[0], int) and a[0] in (43, 45):
+        return mk_str([a[0]] + [48] * (w - len(a)) + a[1:])
+    return mk_str([48] * (w - len(a)) + a)
+
+
 # ------------------------------------------------------------------------- exact floats
 class SFloat(Sym):
     """Exact IEEE double: value = sign * M * 2**e with 2**52 <= M < 2**53 (M an Int term or int), e concrete; or zero."""
@@ -582,6 +633,8 @@ def install(vm):
 
     def sm_join(vm_, o, args, kw):
         parts = list(vm_.iterate(args[0]))
+        if any(isinstance(p, STableItem) for p in parts):
+            return SJoined(o, parts)
         out = []
         for i, p in enumerate(parts):
             if i:
@@ -589,6 +642,16 @@ def install(vm):
             out.extend(str_atoms(p))
         return mk_str(out)
     vm.method_models[(str, 'join')] = sm_join
+
+    def sj_split(vm_, o, args, kw):
+        if args and args[0] is not None and args[0] != o.sep:
+            raise Unsupported('split of a joined word list on another separator')
+        if not args and not o.sep.isspace():
+            raise Unsupported('whitespace split of a word list joined with a non-space separator')
+        return list(o.items)
+    vm.method_models[(SJoined, 'split')] = sj_split
+    for t in (SStr, str):
+        vm.method_models[(t, 'zfill')] = sm_zfill
     old_str = vm.models[id(str)]
 
     def m_str(vm_, args, kw):
